@@ -3,10 +3,14 @@ package http3
 // C18: HTTP/3 carries requests and responses end to end without loss or alteration.
 //
 // Parts
-//   lattice      message lattice (1-dimension deviations quick, pairs thorough), no faults
-//   faults       every fault map with <= k non-default fates over all datagrams of an exchange
-//   raw          scripted raw QUIC peer: byte splits, resets, forbidden frames / streams
+//   lattice      message lattice (<= 2-dimension deviations quick, <= 3 thorough), no faults
+//   raw          scripted raw QUIC client against the real server side: byte splits, resets,
+//                unknown / forbidden frames and streams
+//   raw-client   scripted raw QUIC server against the real Transport: the same, mirrored
 //   real-server  clean exchanges through the unchanged Server.ServeListener path
+//   faults       every single-fault map over all datagrams of an exchange (1-dimension
+//                deviations quick, pairs thorough)
+//   faults-k2    every 2-fault map over the first N datagrams of each direction
 //
 // See c18_model_test.go (reference model), c18_run_test.go (E2 executor + oracle),
 // c18_raw_test.go (raw peer).
@@ -113,9 +117,9 @@ func TestVerifC18(t *testing.T) {
 	seed := func(e explore.Env) uint64 { return uint64(e.Seed) + 1 }
 	parts := []explore.Part{
 		c18Part(t, "lattice", false, func(e explore.Env) ([]c18Case, string) {
-			k := 1
+			k := 2
 			if e.Thorough() {
-				k = 2
+				k = 3
 			}
 			var cases []c18Case
 			for _, m := range c18Deviations(k, nil) {
@@ -126,7 +130,11 @@ func TestVerifC18(t *testing.T) {
 		c18Part(t, "faults", true, func(e explore.Env) ([]c18Case, string) {
 			var cases []c18Case
 			skip := map[string]bool{"abort": true}
-			msgs := c18Deviations(1, skip)
+			k := 1
+			if e.Thorough() {
+				k = 2
+			}
+			msgs := c18Deviations(k, skip)
 			for mi, m := range msgs {
 				if !e.Mine(mi) {
 					continue
@@ -139,7 +147,7 @@ func TestVerifC18(t *testing.T) {
 					cases = append(cases, c)
 				}
 			}
-			rule := fmt.Sprintf("every fault map with exactly 1 non-default fate %v on any datagram of the fault-free run (both directions, handshake and teardown included) of each of the %d messages that deviate from the default in <= 1 dimension (aborts excluded)", c18Fates, len(msgs))
+			rule := fmt.Sprintf("every fault map with exactly 1 non-default fate %v on any datagram of the fault-free run (both directions, handshake and teardown included) of each of the %d messages that deviate from the default in <= %d dimension(s) (aborts excluded)", c18Fates, len(msgs), k)
 			return cases, rule
 		}),
 		c18Part(t, "faults-k2", false, func(e explore.Env) ([]c18Case, string) {
@@ -148,7 +156,7 @@ func TestVerifC18(t *testing.T) {
 			N := 12
 			msgs := []c18Msg{{}}
 			if e.Thorough() {
-				N = 20
+				N = 30
 				msgs = c18Deviations(1, map[string]bool{"abort": true})
 			}
 			var cases []c18Case
